@@ -23,6 +23,7 @@ Alt(l, r)   == [op |-> "alt", l |-> l, r |-> r]
 Star(r)     == [op |-> "star", r |-> r]
 Plus(r)     == [op |-> "plus", r |-> r]
 Opt(r)      == [op |-> "opt", r |-> r]
+Rep12(r)    == [op |-> "rep12", r |-> r]        \* r{1,2}: a counted repetition - its text contains a comma
 Bol         == [op |-> "bol"]
 Eol         == [op |-> "eol"]
 Wb          == [op |-> "wb"]
@@ -54,6 +55,7 @@ Ends(r, s, i, ci) ==
     [] r.op = "cat"  -> UNION {Ends(r.r, s, j, ci) : j \in Ends(r.l, s, i, ci)}
     [] r.op = "alt"  -> Ends(r.l, s, i, ci) \cup Ends(r.r, s, i, ci)
     [] r.op = "opt"  -> {i} \cup Ends(r.r, s, i, ci)
+    [] r.op = "rep12" -> LET one == Ends(r.r, s, i, ci) IN one \cup UNION {Ends(r.r, s, j, ci) : j \in one}
     [] r.op = "bol"  -> IF i = 1 THEN {i} ELSE {}
     [] r.op = "eol"  -> IF i = Len(s)+1 THEN {i} ELSE {}
     [] r.op = "wb"   -> LET before == i > 1 /\ IsWordC(s[i-1])
